@@ -195,7 +195,7 @@ def evaluate_faulty(ctx, fplan, twin_res, twin_data, want_events=False):
         rec["violations"].append({"class": "GEN_FAIL", "sig": signature("GEN_FAIL", d), "detail": d})
         return rec
     # status 0: the build will use these bytes
-    if _oracle.code_lines(data) == _oracle.code_lines(twin_data):
+    if data == twin_data or _oracle.code_lines(data) == _oracle.code_lines(twin_data):
         rec["outcome"] = "same_code_as_twin"
         return rec
     rec["escalated"] = True
@@ -250,7 +250,7 @@ def evaluate_session(ctx, splan, want_events=False):
             d["what"] = "hang" if res["hang"] else "non-zero status"
             rec["violations"].append({"class": "HISTORY_DEPENDENT", "sig": "HISTORY_DEPENDENT|%s|%s" % (d["what"], res["exc"]), "detail": d})
             break
-        if _oracle.code_lines(data) == _oracle.code_lines(fdata):
+        if data == fdata or _oracle.code_lines(data) == _oracle.code_lines(fdata):
             step["outcome"] = "same code as a fresh run"
             continue
         v, detail = _oracle.judge_twin(ctx.builder, ctx.tree, inv, data, extra_toolchain=False)
